@@ -31,6 +31,9 @@ Judge(ph, i) ==
                      ELSE IF \E f \in DOMAIN c.vals : c.dec[f] # c.vals[f] THEN
                             "FieldSurvives/" \o (CHOOSE f \in DOMAIN c.vals : c.dec[f] # c.vals[f])
                      ELSE IF c.bits2 # c.bits THEN "BitsSurvive"
+                     \* "decodes back to equal field values": a field held as an object of the library (service options, fragment
+                     \* sequence number ...) compares equal - with == - to the one the PDU was built from when their values are the same
+                     ELSE IF c.objneq # "" THEN "FieldObjectsCompareEqual/" \o c.objneq
                      ELSE "ok",
              dr |-> IF c.err = "" /\ c.n = All[c.name].total /\ bad # {} THEN "serialised-field-differs-from-layout/" \o L[CHOOSE j \in bad : TRUE].f ELSE "ok"]
     [] ph = "raw" ->
